@@ -89,7 +89,9 @@ impl Reader {
             raw::Reader::new(&mut callback_data_new).retrieve(&mut callback_data_new.error)?;
         let callback_data = CallbackData {
             file: callback_data_new.file.into_inner(),
-            seek_base: callback_data_new.seek_base.unwrap(),
+            // `seek_base` counts from the start of the datafile, `seek_read` needs a position
+            // in the file.
+            seek_base: so(datafile_start.checked_add(callback_data_new.seek_base.unwrap()))?,
             buffer: None,
             error: None,
         };
